@@ -147,6 +147,11 @@ class Wsdl11(XmlSchema):
     def build_interface_document(self, url):
         """Build the wsdl for the application."""
 
+        # start from scratch: elements that an earlier (possibly failed) build
+        # left in these would stay attached to its tree instead of this one's.
+        self.port_type_dict = {}
+        self.service_elt_dict = {}
+
         self.build_schema_nodes()
 
         self.url = REGEX_WSDL.sub('', url)
